@@ -125,6 +125,23 @@ def run(ctx):
                 fam_counts['constants'] += 1
             except Exception:
                 rejects += 1
+    # ---- literal spellings in every operand position (index, set member, range bound, argument, operand, quantifier domain): the printer
+    # must write the token, not the value (`xs[01]` and `xs[1]` are different ASTs)
+    NUMBERS = ['0', '1', '01', '007', '1.', '1.0', '.5', '0.5', '1e3', '1E3', '1e+3', '2e-2', '1.5e1', '.5e1', '10.', '12', '3.25', '100', '1e0', '00']
+    fam_counts['literal_spellings'] = 0
+    for tok in NUMBERS + ['PI', 'E', 'INF', '"a"', '"a b"', '""']:
+        num = not tok.startswith('"')
+        tpls = (['xs[%] > 0', 'm.xs[%] = 1', '@A.xs[%] > 0', 'ms[%].b', 'x in [% to 9]', 'x in ![0 to %]!', 'abs(%) > 0', 'x + % > 0', '- % < x', 'x ** % = 1',
+                 'forall i in [% to 3]: @i > 0', 'x = %', 'x in {%, 1}', 'xs[xs[%]] = 0']
+                if num else ['s = %', 's in {%, "b"}', 'str(%) = s', 'forall i in {%}: @i = s', 'not (s != %)'])
+        for tpl in tpls:
+            body = tpl.replace('%', tok)
+            for entry, txt, parser, dumper in (('expression', body, ep, dump_expr), ('predicate', '{ ' + body + ' }', prp, dump_pred)):
+                try:
+                    items.append((entry, txt, parser, dumper, parser.parse(txt)))
+                    fam_counts['literal_spellings'] += 1
+                except Exception:
+                    rejects += 1
     # ---- own fields named `not` / `forall` / `exists`, written directly: names wherever the grammar expects an expression rather than a
     # logic operand (`x = not + 1`); printed as the left operand of a parenthesised operator they stand at the start of a logic operand
     fam_counts['own_logic_kw'] = 0
